@@ -277,7 +277,7 @@ def check_header_roundtrip(ctx, rep, rng, tier):
     model = ctx["model"]
     n = 150 if tier == "quick" else 3000
     for i in range(n):
-        t = hdr.gen_py7zr_like_header(rng, with_partial=(i % 2 == 0))
+        t = hdr.gen_py7zr_like_header(rng, with_partial=(i % 2 == 0), with_times=(i % 3 == 1))
         pos = rng.choice([32, 33, 34, 35, 100, 4097])
         rep.count(("hdr", i, repr(t)[:200]), nontrivial=True)
         w1 = hdr.impl_write(t, pos)
@@ -290,9 +290,17 @@ def check_header_roundtrip(ctx, rep, rng, tier):
             rep.violation("the header py7zr wrote cannot be parsed back (%s)" % back[1], {"kind": "header", "tree": t, "pos": pos},
                           match_keys={"kind": "header-roundtrip"})
             return
-        # names, emptystream flags, mtime and attributes (undefined staying undefined) must come back as written
-        want = [(f[0], f[1], f[4] if f[4] != [] else [[]], f[5] if f[5] != [] else [[]]) for f in t[1][0]]
-        got = [(f[0], f[1], f[4], f[5]) for f in back[1][1][0]]
+        # names, emptystream flags, mtime and attributes (undefined staying undefined) must come back as written; creation and
+        # access times likewise (their records are written exactly when some entry has a defined value: then an absent key
+        # comes back as None, otherwise the key stays absent)
+        fl = t[1][0]
+        hc = any(f[2] not in ([], [[]]) for f in fl)
+        ha = any(f[3] not in ([], [[]]) for f in fl)
+        tn = lambda has, x: ([] if not has else ([[]] if x == [] else x))  # noqa: E731
+        want = [(f[0], f[1], tn(hc, f[2]), tn(ha, f[3]), f[4] if f[4] != [] else [[]], f[5] if f[5] != [] else [[]]) for f in fl]
+        got = [(f[0], f[1], f[2], f[3], f[4], f[5]) for f in back[1][1][0]]
+        if hc or ha:
+            rep.dist("header_roundtrip_times", "creation/access times defined")
         if want != got:
             k = next(j for j, (a, b) in enumerate(zip(want, got)) if a != b) if len(want) == len(got) else -1
             rep.violation("whole-header round trip changes entry %d: wrote %r read %r" % (k, want[k] if k >= 0 else len(want), got[k] if k >= 0 else len(got)),
